@@ -904,7 +904,15 @@ func genRelayCase(w *wire.World, g *sip.Gen, i int, prop string) *relayCase {
 				h := w.Hops[g.R.Intn(len(w.Hops))]
 				host = []string{h.IP, h.Name}[g.R.Intn(2)]
 			}
-			entries = append(entries, genViaEntry(g, host, []int{0, 5060, 5080}[g.R.Intn(3)], []string{"UDP", "TCP", "TLS"}[g.R.Intn(3)], "z9hG4bK"+g.Alnum(4, 10), true))
+			e := genViaEntry(g, host, []int{0, 5060, 5080}[g.R.Intn(3)], []string{"UDP", "TCP", "TLS"}[g.R.Intn(3)], "z9hG4bK"+g.Alnum(4, 10), true)
+			if g.R.Intn(3) == 0 {
+				// stamped by the element above it, as lower entries of real traffic are
+				e += fmt.Sprintf(";received=192.0.2.%d", 1+g.R.Intn(250))
+				if g.R.Intn(2) == 0 {
+					e += fmt.Sprintf(";rport=%d", 1024+g.R.Intn(60000))
+				}
+			}
+			entries = append(entries, e)
 		}
 		vvalues, vlay := g.JoinList(entries)
 		vname := []string{"Via", "v", "VIA", "via"}[g.R.Intn(4)]
